@@ -31,6 +31,7 @@ def circuits(env, tier):
     yield "U3+h(0,1,1)", uni(3, 4, [(0, 1, 1)])
     yield "U3[late-herald]", uni(3, 3)
     yield "U4+h(0,0,0)+h(1,3,1)", uni(4, 5, [(0, 0, 0), (1, 3, 1)])
+    yield "U4+h(1,0,2)+h(1,3,1)", uni(4, 12, [(1, 0, 2), (1, 3, 1)])      # two heralds with one photon each (two herald photons in total, none on a shared mode)
     yield "U2+h(0,0,0)+h(1,1,1)", uni(2, 11, [(0, 0, 0), (1, 1, 1)])      # every mode heralded: no user-visible mode (herald success probability)
     c = lw.Circuit(3)
     c.bs(0, reflectivity=env.const(F(1, 3)))
@@ -389,7 +390,7 @@ def _run(mode, which, tier, label_filter=None):
 
 
 def circuit_labels(tier):
-    base = ["U2", "U3", "U3+h(1,0,2)", "U3+h(0,1,1)", "U3[late-herald]", "U4+h(0,0,0)+h(1,3,1)", "U2+h(0,0,0)+h(1,1,1)", "lossy3", "lossy2", "lossy3+h(1,2,0)", "anc(1)", "tiny"]
+    base = ["U2", "U3", "U3+h(1,0,2)", "U3+h(0,1,1)", "U3[late-herald]", "U4+h(0,0,0)+h(1,3,1)", "U4+h(1,0,2)+h(1,3,1)", "U2+h(0,0,0)+h(1,1,1)", "lossy3", "lossy2", "lossy3+h(1,2,0)", "anc(1)", "tiny"]
     return base + (["two-ancillas+loss", "U4"] if tier == "thorough" else [])
 
 
